@@ -331,6 +331,20 @@ pub const SIGS: &[Sig] = &[
         pred: |_, ev| ev.contains("global_agg_empty_input") || ev.contains("agg_no_nonnull_input"),
     },
     Sig {
+        id: "agg-sum-over-derived-column-null",
+        summary: "a grouped SUM/AVG over a column of a derived table / CTE returns NULL (`SELECT c2, SUM(c2) FROM (SELECT a AS c2 FROM r) t GROUP BY c2` gives (0, NULL)); the same aggregate over a base-table column is correct — the fused aggregation cannot resolve the aliased column's type",
+        signature: "GROUP BY statement over a derived table or CTE that contains a SUM or AVG aggregate",
+        pred: |c, _| has(c, "group_by") && (has(c, "derived") || has(c, "cte")) && {
+            let mut hit = false;
+            walk_query_exprs(&c.query, &mut |e| {
+                if matches!(e, Expr::Agg { f: AggF::Sum | AggF::Avg, .. }) {
+                    hit = true;
+                }
+            });
+            hit
+        },
+    },
+    Sig {
         id: "setop-all-multiplicity",
         summary: "INTERSECT ALL / EXCEPT ALL are planned as semi/anti joins, so result multiplicities are wrong",
         signature: "statement contains INTERSECT ALL or EXCEPT ALL",
@@ -352,7 +366,7 @@ pub const SIGS: &[Sig] = &[
         id: "correlated-subquery",
         summary: "correlated IN / EXISTS / scalar subqueries return wrong rows after decorrelation (duplicates, rows that do not match, or missing rows), even without NULLs",
         signature: "statement contains a subquery whose WHERE references a column of the enclosing query",
-        pred: |c, _| has(c, "correlated"),
+        pred: |c, _| has(c, "correlated") || has(c, "correlated_ref"),
     },
     Sig {
         id: "in-list-null-operand",
@@ -382,7 +396,7 @@ pub const SIGS: &[Sig] = &[
         id: "agg-minmax-string-after-join",
         summary: "MIN/MAX over a VARCHAR column above a join returns NULL (the join hands the aggregate a dictionary-encoded string column the accumulator ignores)",
         signature: "MIN or MAX whose argument is a VARCHAR column, in a query block whose FROM joins two or more relations",
-        pred: |c, _| minmax_over_string(c) && from_items(&c.query) >= 2,
+        pred: |c, ev| (minmax_over_string(c) || ev.contains("minmax_string")) && flat_relations(&c.query) >= 2,
     },
     Sig {
         id: "shared-subplan-self-join",
